@@ -136,6 +136,10 @@ def run(chk: Check, proj: Project) -> None:
     s1a_lock_statements(chk, proj, w)
     s1i_shared_instances(chk, proj, w)
     s1g_global_objects(chk, proj, w, reach)
+    from . import C19 as _C19
+
+    chk.borrow("S1-A7", "the lazily created default media cache may be created by two threads at once without harm: same-named LocMemCache objects share one storage, so the name is a constant (shared with C19-S7)",
+               lambda sub: _C19.s7_own_backend(sub, proj), only=lambda o: "one-store-however-often-created" in o.construct)
     from . import C06 as _C06
 
     chk.borrow("S2", "no residue in the per-render registries once all renders have finished, also when ANOTHER thread's render failed: every insertion into a per-render registry is followed, on the raising paths too, by its release in the same function or a caller's handler - a later sweep that only iterates the callbacks registered at the END of a component's preparation never sees a component that failed earlier (shared with C06-S1a)",
